@@ -22,10 +22,11 @@ git apply "$out/patch.diff" || { echo "patch does not apply"; exit 2; }
 PYTHONPATH="$scratch/wt" timeout 300 /venv/bin/python "$scratch/wt/demo_run.py" > "$scratch/demo_seeded.log" 2>&1; demo_seeded=$?
 rm -f "$scratch/wt/demo_run.py"
 # -n 0: the repository's pytest.ini uses xdist; under load its Django ORM tests flake on their shared db.sqlite3
-/venv/bin/python -m pytest -q -p no:cacheprovider --timeout=900 -n 0 tests > "$scratch/tests.log" 2>&1
+# a private TMPDIR: the tests create diskcache-* directories under it, and several confirmations may run side by side
+mkdir -p "$scratch/tmp"
+TMPDIR="$scratch/tmp" /venv/bin/python -m pytest -q -p no:cacheprovider --timeout=900 -n 0 tests > "$scratch/tests.log" 2>&1
 tests_line="$(grep -E "passed|failed" "$scratch/tests.log" | tail -1)"
 failed="$(echo "$tests_line" | grep -c failed)"
-find /tmp -maxdepth 1 -name 'diskcache-*' -type d -exec rm -rf {} + 2>/dev/null
 cd /verif
 results=""
 for c in "$id" "$@"; do
